@@ -16,7 +16,7 @@ Proof.
   autorewrite with prj. destruct (writer c); [left|right|right]; repeat split; try discriminate; reflexivity.
 Qed.
 
-Ltac norm := unfold finish_close, finalize in *; cbn [kd ty st rep in_reg reader pc writer at_ res closers delivered sent seen_closed viol twice bad_deliv bad_sent report set_reader set_pc set_writer set_att set_res set_closers set_reg set_ty bump_delivered bump_sent] in *.
+Ltac norm := unfold finish_close, finalize in *; cbn [kd ty st rep in_reg reader pc writer at_ res closers detached delivered sent seen_closed viol twice bad_deliv bad_sent report set_reader set_pc set_writer set_att set_res set_closers set_detached set_reg set_ty bump_delivered bump_sent] in *.
 
 (* case split on the three behaviours of do_disconnect applied to [x] *)
 Ltac dd x :=
@@ -49,6 +49,7 @@ Ltac ev_cases c :=
   | |- context [match reader c with _ => _ end] => destruct (reader c) eqn:?
   | |- context [match writer c with _ => _ end] => destruct (writer c) eqn:?
   | |- context [match closers c with _ => _ end] => destruct (closers c) eqn:?
+  | |- context [match detached c with _ => _ end] => destruct (detached c) eqn:?
   | |- context [match rep c with _ => _ end] => destruct (rep c) eqn:?
   | |- context [match in_reg c with _ => _ end] => destruct (in_reg c) eqn:?
   | |- context [match ?a with ThenRaise => _ | ThenRet => _ | ThenCancel => _ end] => destruct a
@@ -74,7 +75,8 @@ Lemma inv1_step c e : inv1 c = true -> inv1 (step c e) = true.
 Proof.
   intros H. unfold step. destruct (created_guard c e) eqn:G; [exact H|]. unfold created_guard in G.
   destruct e; try destruct m; try destruct r; try destruct x; ev_cases c; try assumption.
-  all: try (dd c; cbn [fst snd]); try (dd (bump_sent c); cbn [fst snd]); try assumption.
+  all: try (dd c; cbn [fst snd]); try (dd (bump_sent c); cbn [fst snd]);
+    try (match goal with |- context [do_disconnect (set_detached ?n ?x)] => dd (set_detached n x); cbn [fst snd] end); try assumption.
   all: unfold inv1 in *; repeat (progress (norm; ev_cases c)); norm.
   all: fin c.
 Qed.
@@ -123,7 +125,8 @@ Lemma inv2_step c e : inv2 c = true -> inv2 (step c e) = true.
 Proof.
   intros H. unfold step. destruct (created_guard c e) eqn:G; [exact H|]. unfold created_guard in G.
   destruct e; try destruct m; try destruct r; try destruct x; ev_cases c; try assumption.
-  all: try (dd c; cbn [fst snd]); try (dd (bump_sent c); cbn [fst snd]); try assumption.
+  all: try (dd c; cbn [fst snd]); try (dd (bump_sent c); cbn [fst snd]);
+    try (match goal with |- context [do_disconnect (set_detached ?n ?x)] => dd (set_detached n x); cbn [fst snd] end); try assumption.
   all: unfold inv2, inv1 in *; repeat (progress (norm; ev_cases c)); norm.
   all: fin2 c.
 Qed.
@@ -165,7 +168,8 @@ Lemma inv3_step c e : inv3 c = true -> inv3 (step c e) = true.
 Proof.
   intros H. unfold step. destruct (created_guard c e) eqn:G; [exact H|]. unfold created_guard in G.
   destruct e; try destruct m; try destruct r; try destruct x; ev_cases c; try assumption.
-  all: try (dd c; cbn [fst snd]); try (dd (bump_sent c); cbn [fst snd]); try assumption.
+  all: try (dd c; cbn [fst snd]); try (dd (bump_sent c); cbn [fst snd]);
+    try (match goal with |- context [do_disconnect (set_detached ?n ?x)] => dd (set_detached n x); cbn [fst snd] end); try assumption.
   all: unfold inv3 in *; repeat (progress (norm; ev_cases c)); norm.
   all: fin3 c.
 Qed.
